@@ -22,7 +22,7 @@ var keyAlphabet = []byte{0x00, '+', ',', '-', '.', '0', ':', 'a', 'b', 'm', 0xff
 // Key draws a row key of 0..maxLen bytes over the boundary-heavy alphabet.
 func (g *Gen) Key(maxLen int) []byte {
 	n := g.R.Intn(maxLen + 1)
-	k := make([]byte, n)
+	k := make([]byte, n) // never nil: a nil row is not a row key (required field unset)
 	for i := range k {
 		k[i] = keyAlphabet[g.R.Intn(len(keyAlphabet))]
 	}
@@ -70,12 +70,12 @@ func (g *Gen) KeyNear(bounds [][]byte, maxLen int) []byte {
 	b := bounds[g.R.Intn(len(bounds))]
 	switch g.R.Intn(7) {
 	case 0:
-		return append([]byte(nil), b...)
+		return append([]byte{}, b...)
 	case 1:
 		return append(append([]byte(nil), b...), 0x00)
 	case 2: // predecessor-ish
 		if len(b) == 0 {
-			return nil
+			return []byte{}
 		}
 		k := append([]byte(nil), b...)
 		if k[len(k)-1] == 0 {
@@ -85,13 +85,13 @@ func (g *Gen) KeyNear(bounds [][]byte, maxLen int) []byte {
 		return append(k, 0xff)
 	case 3:
 		if len(b) > 0 {
-			return append([]byte(nil), b[:len(b)-1]...)
+			return append([]byte{}, b[:len(b)-1]...)
 		}
-		return nil
+		return []byte{}
 	case 4:
 		return append(append([]byte(nil), b...), keyAlphabet[g.R.Intn(len(keyAlphabet))])
 	case 5:
-		return nil // empty key
+		return []byte{} // empty key
 	default:
 		k := append([]byte(nil), b...)
 		if len(k) > 0 {
